@@ -172,7 +172,7 @@ pub proof fn lemma_bb_layout(d0: Seq<u8>, t: Seq<u8>)
 //@rule R16
 //@rule R3 min=3
 //@rule R8
-//@sub /<W: Write \+ Seek \+ Send \+ 'static>\(\s*file: &mut BufWriter<W>,/ => (file: &mut FSink, min=1
+//@sub /<W: Write \+ Seek \+ Send \+ 'static>\(\s*file: &mut BufWriter<W>(?=\s*[,)])/ => (file: &mut FSink min=1
 //@sub /io::Result<\(\)>/ => Result<(), IoError> min=1
 //@sub /\.put_bytes\(/ => .put( min=2
 //@ret r
@@ -253,7 +253,7 @@ impl BigBedWrite {
 //@rule R8
 //@presub /\n([ \t]*)let field_count = 'field_count: \{.*?\n\1\};/ => \n\1let field_count = schema_field_count(&autosql); min=1 count=1
 //@presub /autosql\.unwrap_or_else\(\|\| crate::bed::autosql::BED3\.to_string\(\)\)/ => text_or_bed3(autosql) min=1 count=1
-//@presub /CString::new\(autosql\.into_bytes\(\)\)\.map_err\(\|_\| \{\s*ProcessDataError::InvalidInput\("Invalid autosql: null byte in string"\.to_owned\(\)\)\s*\}\)\?;/ => match CStr::new(autosql.into_bytes()) { Ok(c) => c, Err(_) => return Err(ProcessDataError::InvalidInput(Msg {})) }; min=1 count=1
+//@presub /CString::new\(autosql\.into_bytes\(\)\)\s*\.map_err\(\|_\|\s*\{?\s*ProcessDataError::InvalidInput\("Invalid autosql: null byte in string"\.to_owned\(\)\)\s*\}?\)\?;/ => match CStr::new(autosql.into_bytes()) { Ok(c) => c, Err(_) => return Err(ProcessDataError::InvalidInput(Msg {})) }; min=1 count=1
 //@sub /file: &mut BufWriter<W>,/ => file: &mut FSink, min=1
 //@sub /autosql: Option<String>,/ => autosql: Option<Text>, min=1
 //@sub /\.pos\(\)\?/ => .tell()? min=0
